@@ -107,104 +107,7 @@ func runC04(c *eng.Ctx) {
 
 	// ---- R04.2 commit rule
 	c.Rule("R04.2", "K1")
-	if fn := c.Fn("server.(*partition).commitLoop"); fn != nil {
-		isr := p.Field("server", "partition", "isr")
-		minISR := p.Field("server", "partition", "minISR")
-		enough := eng.CmpEdges(fn, eng.Len(eng.Load(isr, nil)), eng.Load(minISR, nil), eng.GE)
-		take := eng.CallsIn(fn, "github.com/Workiva/go-datastructures/queue.Queue.TakeUntil")
-		set := eng.CallsIn(fn, clSetI)
-		// iteration boundary: the receive on commitCheck (select)
-		var sel []ssa.Instruction
-		eng.Instrs(fn, func(in ssa.Instruction) {
-			if _, ok := in.(*ssa.Select); ok {
-				sel = append(sel, in)
-			}
-		})
-		if len(take) != 1 || len(set) != 1 || len(sel) != 1 || len(enough) == 0 {
-			c.Unresolved("TakeUntil / SetHighWatermark / select / len(p.isr) < p.minISR in commitLoop")
-		} else {
-			for _, tgt := range []ssa.CallInstruction{take[0], set[0]} {
-				q := &eng.PathQuery{Fn: fn, FromAfter: sel, Target: func(x ssa.Instruction) bool { return x == tgt.(ssa.Instruction) }, CutEdges: enough, CutInstr: func(x ssa.Instruction) bool { return x == sel[0] }}
-				w := q.Find()
-				c.Check(w == nil, "min-ISR gate before "+eng.CalleeRef(tgt.Common()), c.Pos(tgt.(ssa.Instruction)), "reached in an iteration only when len(p.isr) >= p.minISR", "commit proceeds although the in-sync set is below the configured minimum (path "+w.String()+")")
-			}
-			// len(p.isr) is read under p.mu
-			la := eng.LocksOf(p, fn, 0)
-			eng.Instrs(fn, func(in ssa.Instruction) {
-				if call, ok := in.(*ssa.Call); ok && eng.Len(eng.Load(isr, nil))(call) {
-					st := la.At(call)
-					held := false
-					for k := range st {
-						if strings.HasSuffix(k, ".mu") {
-							held = true
-						}
-					}
-					c.Check(held, "ISR size read under p.mu", c.Pos(call), "p.mu held", "len(p.isr) is read without p.mu")
-				}
-			})
-			// minLatest = min(latestOffsets); SetHighWatermark(minLatest); predicate Offset <= minLatest
-			sv := set[0].(*ssa.Call)
-			hwArg := eng.AllArgs(&sv.Call)[1]
-			isMin := eng.Call(-1, "server.min")
-			c.Check(isMin(hwArg), "commit point = min over the ISR", c.Pos(sv), "SetHighWatermark(min(latestOffsets))", "the committed offset is "+eng.Describe(hwArg)+", not the minimum of the in-sync replicas' latest offsets")
-			if mc := eng.AsCall(hwArg); mc != nil && isMin(hwArg) {
-				// latestOffsets elements are stored only from replica.getLatestOffset() while ranging p.isr
-				arr := mc.Call.Args[0]
-				okSrc, nst := true, 0
-				if ms, ok := arr.(*ssa.MakeSlice); ok {
-					c.Check(eng.Len(eng.Load(isr, nil))(ms.Len), "one slot per in-sync replica", c.Pos(ms), "latestOffsets has len(p.isr) slots", "latestOffsets is not sized by the in-sync set")
-					for _, r := range *ms.Referrers() {
-						if ia, ok := r.(*ssa.IndexAddr); ok {
-							for _, rr := range *ia.Referrers() {
-								if st, ok := rr.(*ssa.Store); ok {
-									nst++
-									if !eng.Call(-1, "server.replica.getLatestOffset")(st.Val) {
-										okSrc = false
-									}
-								}
-							}
-						}
-					}
-				} else {
-					okSrc = false
-				}
-				c.Check(okSrc && nst > 0, "latest offsets come from the in-sync replicas", c.Pos(mc), "every slot is filled from replica.getLatestOffset()", "latestOffsets is filled from something other than the in-sync replicas' reported offsets")
-			}
-			// predicate closure
-			tv := take[0].(*ssa.Call)
-			var pred *ssa.Function
-			if mcl, ok := tv.Call.Args[len(tv.Call.Args)-1].(*ssa.MakeClosure); ok {
-				pred = mcl.Fn.(*ssa.Function)
-			}
-			okPred := false
-			if pred != nil {
-				for _, r := range eng.Returns(pred) {
-					okPred = eng.Bin(token.LEQ, eng.LoadNamed("Offset", nil), func(v ssa.Value) bool { return eng.Call(-1, "server.min")(v) })(r.Results[0])
-				}
-			}
-			c.Check(okPred, "commit predicate", c.Pos(tv), "TakeUntil(pending.Offset <= minLatest)", "the commit queue predicate is not `pending.Offset <= minLatest`")
-			// HW is set before acks are sent
-			for _, s := range eng.CallsIn(fn, sendAckRef) {
-				q := &eng.PathQuery{Fn: fn, FromAfter: sel, Target: func(x ssa.Instruction) bool { return x == s.(ssa.Instruction) }, CutInstr: func(x ssa.Instruction) bool { return x == sv || x == sel[0] }}
-				w := q.Find()
-				c.Check(w == nil, "high watermark advanced before ALL acks", c.Pos(s.(ssa.Instruction)), "SetHighWatermark precedes the ack loop in every iteration", "an ALL ack can be sent before the high watermark covers the message (path "+w.String()+")")
-			}
-		}
-	}
-	if fn := c.Fn("server.min"); fn != nil {
-		// keeps the smaller: the store/phi update happens on v[i] < m
-		okMin := false
-		eng.Instrs(fn, func(in ssa.Instruction) {
-			if iff, ok := in.(*ssa.If); ok {
-				if bo, ok := iff.Cond.(*ssa.BinOp); ok && bo.Op == token.LSS {
-					if _, isLoad := bo.X.(*ssa.UnOp); isLoad {
-						okMin = true
-					}
-				}
-			}
-		})
-		c.Check(okMin, "min keeps the smaller element", p.Pos(fn.Pos()), "m is replaced on v[i] < m", "server.min does not select the smaller element")
-	}
+	ruleCommitRule(c)
 	c.Floor(9)
 
 	// ---- R04.3 identity of ack fields
@@ -384,4 +287,107 @@ func indexOfLoad(v ssa.Value) *ssa.IndexAddr {
 	}
 	ia, _ := u.X.(*ssa.IndexAddr)
 	return ia
+}
+
+// ruleCommitRule is R04.2 (shared with C02): no commit below min ISR; commit point = min over the ISR.
+func ruleCommitRule(c *eng.Ctx) {
+	p := c.P
+	if fn := c.Fn("server.(*partition).commitLoop"); fn != nil {
+		isr := p.Field("server", "partition", "isr")
+		minISR := p.Field("server", "partition", "minISR")
+		enough := eng.CmpEdges(fn, eng.Len(eng.Load(isr, nil)), eng.Load(minISR, nil), eng.GE)
+		take := eng.CallsIn(fn, "github.com/Workiva/go-datastructures/queue.Queue.TakeUntil")
+		set := eng.CallsIn(fn, clSetI)
+		// iteration boundary: the receive on commitCheck (select)
+		var sel []ssa.Instruction
+		eng.Instrs(fn, func(in ssa.Instruction) {
+			if _, ok := in.(*ssa.Select); ok {
+				sel = append(sel, in)
+			}
+		})
+		if len(take) != 1 || len(set) != 1 || len(sel) != 1 || len(enough) == 0 {
+			c.Unresolved("TakeUntil / SetHighWatermark / select / len(p.isr) < p.minISR in commitLoop")
+		} else {
+			for _, tgt := range []ssa.CallInstruction{take[0], set[0]} {
+				q := &eng.PathQuery{Fn: fn, FromAfter: sel, Target: func(x ssa.Instruction) bool { return x == tgt.(ssa.Instruction) }, CutEdges: enough, CutInstr: func(x ssa.Instruction) bool { return x == sel[0] }}
+				w := q.Find()
+				c.Check(w == nil, "min-ISR gate before "+eng.CalleeRef(tgt.Common()), c.Pos(tgt.(ssa.Instruction)), "reached in an iteration only when len(p.isr) >= p.minISR", "commit proceeds although the in-sync set is below the configured minimum (path "+w.String()+")")
+			}
+			// len(p.isr) is read under p.mu
+			la := eng.LocksOf(p, fn, 0)
+			eng.Instrs(fn, func(in ssa.Instruction) {
+				if call, ok := in.(*ssa.Call); ok && eng.Len(eng.Load(isr, nil))(call) {
+					st := la.At(call)
+					held := false
+					for k := range st {
+						if strings.HasSuffix(k, ".mu") {
+							held = true
+						}
+					}
+					c.Check(held, "ISR size read under p.mu", c.Pos(call), "p.mu held", "len(p.isr) is read without p.mu")
+				}
+			})
+			// minLatest = min(latestOffsets); SetHighWatermark(minLatest); predicate Offset <= minLatest
+			sv := set[0].(*ssa.Call)
+			hwArg := eng.AllArgs(&sv.Call)[1]
+			isMin := eng.Call(-1, "server.min")
+			c.Check(isMin(hwArg), "commit point = min over the ISR", c.Pos(sv), "SetHighWatermark(min(latestOffsets))", "the committed offset is "+eng.Describe(hwArg)+", not the minimum of the in-sync replicas' latest offsets")
+			if mc := eng.AsCall(hwArg); mc != nil && isMin(hwArg) {
+				// latestOffsets elements are stored only from replica.getLatestOffset() while ranging p.isr
+				arr := mc.Call.Args[0]
+				okSrc, nst := true, 0
+				if ms, ok := arr.(*ssa.MakeSlice); ok {
+					c.Check(eng.Len(eng.Load(isr, nil))(ms.Len), "one slot per in-sync replica", c.Pos(ms), "latestOffsets has len(p.isr) slots", "latestOffsets is not sized by the in-sync set")
+					for _, r := range *ms.Referrers() {
+						if ia, ok := r.(*ssa.IndexAddr); ok {
+							for _, rr := range *ia.Referrers() {
+								if st, ok := rr.(*ssa.Store); ok {
+									nst++
+									if !eng.Call(-1, "server.replica.getLatestOffset")(st.Val) {
+										okSrc = false
+									}
+								}
+							}
+						}
+					}
+				} else {
+					okSrc = false
+				}
+				c.Check(okSrc && nst > 0, "latest offsets come from the in-sync replicas", c.Pos(mc), "every slot is filled from replica.getLatestOffset()", "latestOffsets is filled from something other than the in-sync replicas' reported offsets")
+			}
+			// predicate closure
+			tv := take[0].(*ssa.Call)
+			var pred *ssa.Function
+			if mcl, ok := tv.Call.Args[len(tv.Call.Args)-1].(*ssa.MakeClosure); ok {
+				pred = mcl.Fn.(*ssa.Function)
+			}
+			okPred := false
+			if pred != nil {
+				for _, r := range eng.Returns(pred) {
+					okPred = eng.Bin(token.LEQ, eng.LoadNamed("Offset", nil), func(v ssa.Value) bool { return eng.Call(-1, "server.min")(v) })(r.Results[0])
+				}
+			}
+			c.Check(okPred, "commit predicate", c.Pos(tv), "TakeUntil(pending.Offset <= minLatest)", "the commit queue predicate is not `pending.Offset <= minLatest`")
+			// HW is set before acks are sent
+			for _, s := range eng.CallsIn(fn, sendAckRef) {
+				q := &eng.PathQuery{Fn: fn, FromAfter: sel, Target: func(x ssa.Instruction) bool { return x == s.(ssa.Instruction) }, CutInstr: func(x ssa.Instruction) bool { return x == sv || x == sel[0] }}
+				w := q.Find()
+				c.Check(w == nil, "high watermark advanced before ALL acks", c.Pos(s.(ssa.Instruction)), "SetHighWatermark precedes the ack loop in every iteration", "an ALL ack can be sent before the high watermark covers the message (path "+w.String()+")")
+			}
+		}
+	}
+	if fn := c.Fn("server.min"); fn != nil {
+		// keeps the smaller: the store/phi update happens on v[i] < m
+		okMin := false
+		eng.Instrs(fn, func(in ssa.Instruction) {
+			if iff, ok := in.(*ssa.If); ok {
+				if bo, ok := iff.Cond.(*ssa.BinOp); ok && bo.Op == token.LSS {
+					if _, isLoad := bo.X.(*ssa.UnOp); isLoad {
+						okMin = true
+					}
+				}
+			}
+		})
+		c.Check(okMin, "min keeps the smaller element", p.Pos(fn.Pos()), "m is replaced on v[i] < m", "server.min does not select the smaller element")
+	}
 }
